@@ -126,6 +126,14 @@ template <class F> std::string exec(const F& f, const Toks& a) {
     else if (op == "divinv") { Pol R = P(2); E v = S(3); PD.divin(R, v); outP(R); }
     else if (op == "vdiv")   { Pol A = P(3), R = junk(1); E v = S(2); PD.div(R, v, A); outP(R); }
     else if (op == "vmod")   { Pol A = P(3), R = junk(1); E v = S(2); PD.mod(R, v, A); outP(R); }
+    // ---- the same mixed overloads called in place (result object = polynomial operand), as the library itself uses them
+    else if (op == "al_addv")   { Pol A = P(2); E v = S(3); PD.add(A, A, v); outP(A); }
+    else if (op == "al_vadd")   { Pol A = P(3); E v = S(2); PD.add(A, v, A); outP(A); }
+    else if (op == "al_subv")   { Pol A = P(2); E v = S(3); PD.sub(A, A, v); outP(A); }
+    else if (op == "al_vsub")   { Pol A = P(3); E v = S(2); PD.sub(A, v, A); outP(A); }
+    else if (op == "al_mulv")   { Pol A = P(2); E v = S(3); PD.mul(A, A, v); outP(A); }
+    else if (op == "al_vmul")   { Pol A = P(3); E v = S(2); PD.mul(A, v, A); outP(A); }
+    else if (op == "al_divv")   { Pol A = P(2); E v = S(3); PD.div(A, A, v); outP(A); }
     // ---- fused forms
     else if (op == "axpy")    { Pol A = P(2), X = P(3), Y = P(4), R = junk(A.size() + X.size()); PD.axpy(R, A, X, Y); outP(R); }
     else if (op == "axpyv")   { Pol X = P(3), Y = P(4), R = junk(X.size()); E c = S(2); PD.axpy(R, c, X, Y); outP(R); }
@@ -373,12 +381,15 @@ static void gen_field(Gen& g, const std::string& tier, const std::string& profil
             g.emit("neg", {A}); g.emit("negin", {A}); g.emit("setdegree", {A}); g.emit("observe", {A});
             g.emit("diff", {A}); g.emit("reverse", {A}); g.emit("reversein", {A}); g.emit("sqr", {A});
             g.emit("eval", {A, g.scalar()});
-            g.emit("compose", {A, H(1 + (long)g.rng.below(4))});
+            g.emit("compose", {A, H(rep == 0 ? 0 : 1 + (long)g.rng.below(4))});   // b = 0: P(1)
             g.emit("getentry", {A, H((long)g.rng.below(d + 3))});
             g.emit("modpowx", {A, H((long)g.rng.below(d + 3))});
             for (const char* op : {"addv", "subv", "addinv", "subinv", "mulv", "mulinv"}) g.emit(op, {A, g.scalar()});
             for (const char* op : {"vadd", "vsub", "vmul"}) g.emit(op, {g.scalar(), A});
             for (const char* op : {"divv", "divinv"}) g.emit(op, {A, g.nz()});
+            for (const char* op : {"al_addv", "al_subv", "al_mulv"}) g.emit(op, {A, g.scalar()});
+            for (const char* op : {"al_vadd", "al_vsub", "al_vmul"}) g.emit(op, {g.scalar(), A});
+            g.emit("al_divv", {A, g.nz()});
             if (d >= 0) { g.emit("vdiv", {g.scalar(), A}); g.emit("vmod", {g.scalar(), A}); }
             g.emit("pow", {A, H((long)g.rng.below(d > 4 ? 4 : 7))});
             if (d >= 0) {
@@ -407,6 +418,21 @@ static void gen_field(Gen& g, const std::string& tier, const std::string& profil
         long du = 1 + (long)g.rng.below(dmax), da = (long)g.rng.below(2 * dmax) - 1;
         std::string e = (rep % 5 == 0 && !g.isQ) ? vp::hex_ull(g.rng.next()) + vp::hex_ull(g.rng.next() & 0xff) : H((long)g.rng.below(40));   // multi-limb exponents (finite fields only: over Q the coefficients explode)
         g.emit("powmod", {g.poly(da), e, g.poly(du, g.pick_norm_shape())});
+    }
+    // exponents around and above 2^64 (the loop must run on the Integer, not on a machine word), and q^n - 1
+    if (!g.isQ && !karaonly) {
+        std::vector<std::string> es = {"10000000000000000", "10000000000000005", "ffffffffffffffff", "20000000000000003",
+                                       "10000000000000001", "fffffffffffffffe"};
+        for (long du = 1; du <= 3; ++du) {
+            Integer q(1); for (long k = 0; k < du * 24 && q < Integer(1) << 70; ++k) q *= g.p;   // a power of p beyond 2^64
+            Integer qm = q - 1;
+            es.push_back(vp::hex(qm.get_mpz()));
+            for (auto& e : es) {
+                std::string U = g.poly(du, g.pick_norm_shape());
+                g.emit("powmod", {g.poly((long)g.rng.below(2 * du + 2), g.pick_norm_shape()), e, U});
+            }
+            es.pop_back();
+        }
     }
     for (auto& pr : pairs) {
         if (pr.first < 0 || pr.second < 0) continue;
